@@ -233,34 +233,40 @@ def run_script(chk, tmp):
         outdir = os.path.join(tmp, "o%d" % si)
         os.makedirs(outdir)
         mgr, group = _mk_manager(outdir, fields)
-        name = rng.choice(["job_batch_1", "p_batch_12", "x y"])
-        script = os.path.join(outdir, "run_batch_%d.sh" % rng.randint(1, 20))
-        mgr.submit(outdir, name, script, "g", dry_run=True)
-        text = open(os.path.join(outdir, name + ".sh")).read()
-        hpc = group.submitter_params.hpc_config.hpc
-        actual = {p: getattr(hpc, p) for p in OPTIONAL}
-        optterm = clist([f"({cstr(p)}, {cstr(str(v))})" for p, v in actual.items() if v is not None])
-        cfg = f"{{| c_account := {cstr(hpc.account)}; c_walltime := {cstr(hpc.walltime)}; c_opt := fun p => assoc p {optterm} |}}"
-        cmp_.add(f"({cfg}, {cstr(name)}, {cstr(script)}, {cstr(outdir)})", cstr(text),
-                 {"fields": fields, "name": name, "script": script, "path": outdir, "impl_text": text})
-        chk.count(("script", tuple(sorted(fields.items())), name))
-        dist["subsets"] += 1
-        dist["set_fields"] += sum(1 for v in actual.values() if v is not None)
-        # property oracle on impl's text
-        ds = _parse_directives(text)
-        want = [("account", hpc.account), ("job-name", name), ("time", hpc.walltime),
-                ("output", outdir + "/job_output_%j.o"), ("error", outdir + "/job_output_%j.e")]
-        want += [(p, str(v)) for p, v in actual.items() if v is not None]
-        lines = text.split("\n")
-        problems = []
-        if sorted(ds) != sorted(want):
-            problems.append({"missing": sorted(set(want) - set(ds)), "unexpected": sorted(set(ds) - set(want))})
-        if lines[0] != "#!/bin/bash" or not text.endswith("\n") or lines[-2] != f"srun {script}":
-            problems.append({"first_line": lines[0], "last_line": lines[-2:]})
-        if problems:
-            chk.violation("script-directives", "submission script does not carry exactly the configured parameters",
-                          {"component": "SlurmManager._create_submission_script_text", "config": fields, "name": name,
-                           "script": script, "impl_text": text, "problems": problems})
+        # one manager writes the scripts of all the batches a submitter round submits for its group
+        for rep in range(rng.choice([1, 2, 3])):
+            name = rng.choice(["job_batch_%d" % (rep + 1), "p_batch_1%d" % rep, "x y%d" % rep])
+            script = os.path.join(outdir, "run_batch_%d.sh" % (20 * rep + rng.randint(1, 20)))
+            mgr.submit(outdir, name, script, "g", dry_run=True)
+            text = open(os.path.join(outdir, name + ".sh")).read()
+            hpc = group.submitter_params.hpc_config.hpc
+            actual = {p: getattr(hpc, p) for p in OPTIONAL}
+            optterm = clist([f"({cstr(p)}, {cstr(str(v))})" for p, v in actual.items() if v is not None])
+            cfg = f"{{| c_account := {cstr(hpc.account)}; c_walltime := {cstr(hpc.walltime)}; c_opt := fun p => assoc p {optterm} |}}"
+            cmp_.add(f"({cfg}, {cstr(name)}, {cstr(script)}, {cstr(outdir)})", cstr(text),
+                     {"fields": fields, "name": name, "script": script, "path": outdir, "impl_text": text, "nth_script_of_manager": rep + 1})
+            chk.count(("script", tuple(sorted(fields.items())), name, rep))
+            dist["subsets"] += 1
+            dist["set_fields"] += sum(1 for v in actual.values() if v is not None)
+            # property oracle on impl's text
+            ds = _parse_directives(text)
+            want = [("account", hpc.account), ("job-name", name), ("time", hpc.walltime),
+                    ("output", outdir + "/job_output_%j.o"), ("error", outdir + "/job_output_%j.e")]
+            want += [(p, str(v)) for p, v in actual.items() if v is not None]
+            lines = text.split("\n")
+            problems = []
+            if sorted(ds) != sorted(want):
+                problems.append({"missing": sorted(set(want) - set(ds)), "unexpected": sorted(set(ds) - set(want))})
+            if lines[0] != "#!/bin/bash" or not text.endswith("\n") or lines[-2] != f"srun {script}":
+                problems.append({"first_line": lines[0], "last_line": lines[-2:]})
+            commands = [l for l in lines[1:] if l.strip() and not l.startswith("#")]
+            if commands != [f"srun {script}"]:
+                # the script runs the batch's run script and nothing else (not another batch's run script either)
+                problems.append({"commands": commands, "expected": [f"srun {script}"]})
+            if problems:
+                chk.violation("script-directives", "submission script does not carry exactly the configured parameters",
+                              {"component": "SlurmManager._create_submission_script_text", "config": fields, "name": name,
+                               "script": script, "impl_text": text, "problems": problems, "nth_script_of_manager": rep + 1})
         shutil.rmtree(outdir, ignore_errors=True)
         if si == 300:
             chk.sample({"kind": "script", "config": fields, "text": text})
